@@ -78,6 +78,7 @@ func vhSameProof(a, b Proof, withDLEQ bool) bool {
 // the same proofs (V4 groups them by keyset id: compared as a multiset) and the amount; DLEQ complete when requested.
 func VHarnessTokenRoundTrip()  { vhTokenRoundTrip(2) }
 func VHarnessTokenRoundTrip3() { vhTokenRoundTrip(3) }
+func VHarnessTokenRoundTrip4() { vhTokenRoundTrip(4) }
 
 func vhTokenRoundTrip(maxN int) {
 	n := v.Int("nProofs", 0, maxN)
@@ -154,6 +155,20 @@ func vhTokenRoundTrip(maxN int) {
 				any = v.Or(any, v.And(vhSameProof(orig[0], got[pm[0]], includeDLEQ), vhSameProof(orig[1], got[pm[1]], includeDLEQ), vhSameProof(orig[2], got[pm[2]], includeDLEQ)))
 			}
 			v.Assert(any, "C14 the decoded proofs equal the originals as a multiset (amount, id, secret, C, witness, DLEQ when requested)")
+		case 4:
+			// V4 groups by keyset id and keeps the order inside a group: every original is found at a position of its own
+			used := [4]bool{}
+			all := true
+			for i := 0; i < 4; i++ {
+				found := false
+				for j := 0; j < 4; j++ {
+					if !found && !used[j] && vhSameProof(orig[i], got[j], includeDLEQ) {
+						found, used[j] = true, true
+					}
+				}
+				all = all && found
+			}
+			v.Assert(all, "C14 the decoded proofs equal the originals as a multiset (4 proofs; greedy matching)")
 		}
 	}
 	sum := uint64(0)
